@@ -253,6 +253,7 @@ def c_handler_finalize(scenario):
                       # a slave at origin 0 whose PORT is exactly as wide as its region (4 KiB memory on a 12-bit byte address port) beside another slave:
                       # the window is decided on the handler's address space, not on the slave port's
                       "1x2,one-region-without-decoder": (1, [(0x1000_0000, 0x1000), (0x2000_0000, 0x1000)], "shared"), "2x2,one-region-without-decoder,crossbar": (2, [(0x1000_0000, 0x1000), (0x2000_0000, 0x1000)], "crossbar"),
+                      "1x2,region-reserved-first": (1, [(0x1000_0000, 0x1000), (0x2000_0000, 0x800)], "shared"), "2x2,region-reserved-first,crossbar": (2, [(0x1000_0000, 0x1000), (0x2000_0000, 0x800)], "crossbar"),
                       "1x2,narrow-port@0": (1, [(0x0000_0000, 0x1000), (0x4000_0000, 0x1000)], "shared"), "2x2,narrow-port@0,crossbar": (2, [(0x0000_0000, 0x1000), (0x4000_0000, 0x1000)], "crossbar")}[scenario]
     narrow = "narrow-port" in scenario; nodec = "without-decoder" in scenario
     TO = 4
@@ -262,7 +263,14 @@ def c_handler_finalize(scenario):
             self.ms = [wishbone.Interface(data_width=32, address_width=32, addressing="word") for _ in range(nm)]
             self.ss = [wishbone.Interface(data_width=32, address_width=(12 if narrow and k_ == 0 else 32), addressing="word") for k_, _ in enumerate(slaves)]
             for i, m in enumerate(self.ms): bus.add_master(f"m{i}", m)
-            for i, (s_, (o, sz)) in enumerate(zip(self.ss, slaves)): bus.add_slave(f"s{i}", s_, SoCRegion(origin=o, size=sz, decode=not (nodec and i == 0)))
+            if "region-reserved-first" in scenario:
+                # the region of s0 is reserved first (add_region), another slave is added, then s0's slave port is attached to its reserved region:
+                # the order of the handler's region and slave tables differs, each slave must still be selected by ITS region
+                bus.add_region("s0", SoCRegion(origin=slaves[0][0], size=slaves[0][1]))
+                bus.add_slave("s1", self.ss[1], SoCRegion(origin=slaves[1][0], size=slaves[1][1]))
+                bus.add_slave("s0", self.ss[0])
+            else:
+                for i, (s_, (o, sz)) in enumerate(zip(self.ss, slaves)): bus.add_slave(f"s{i}", s_, SoCRegion(origin=o, size=sz, decode=not (nodec and i == 0)))
     try:
         d = mk(Top); d.bus.finalize() if not d.bus.finalized else None
     except SoCError:
@@ -306,4 +314,4 @@ def c_handler_finalize(scenario):
 
 _cases_c06 = cases
 def cases(tier):
-    return _cases_c06(tier) + [Case(f"SoCBusHandler.finalize({sc})", c_handler_finalize, sc) for sc in ("1x1@nonzero", "1x1@0", "1x1@0,full", "2x2,shared", "2x2,crossbar", "1x2,narrow-port@0", "2x2,narrow-port@0,crossbar", "1x2,one-region-without-decoder", "2x2,one-region-without-decoder,crossbar")]
+    return _cases_c06(tier) + [Case(f"SoCBusHandler.finalize({sc})", c_handler_finalize, sc) for sc in ("1x1@nonzero", "1x1@0", "1x1@0,full", "2x2,shared", "2x2,crossbar", "1x2,narrow-port@0", "2x2,narrow-port@0,crossbar", "1x2,one-region-without-decoder", "2x2,one-region-without-decoder,crossbar", "1x2,region-reserved-first", "2x2,region-reserved-first,crossbar")]
